@@ -31,7 +31,13 @@ RULE = (
     "arrays are int64 / int32 / uint8; float data also scaled by 1e+6 / 1e-6; every call is repeated on the same "
     "object and the symmetry test is put to the result object of symmetrize itself, through both implementations; "
     "Kruskal operands come through the C08 provenances (sum, extract, permute, ttv, unit columns, absorbed weights, "
-    "scaled) with tied weights and zero columns."
+    "scaled) with tied weights and zero columns.  Round 3 (near-special values): data class 'near-symmetric' - exactly "
+    "symmetric in every group, then relative noise of size 2.3e-16 .. 1e-5 on the classes of one, some or all groups "
+    "(symmetric to within any tolerance, never exactly; the exact groups stay exact); float data also scaled by 1e-9 / "
+    "1e-10 / 1e-12 (whole tensor below every absolute tolerance); Kruskal class 'near-equal-factors' (factors equal up "
+    "to relative noise 2.3e-16 .. 1e-5) and the C08 provenances 'balanced' / 'near'.  Several live objects: the "
+    "results of symmetrize (both versions, first / second call, result of the result) are assigned to and the operand "
+    "and the other results judged again; a symmetrised Kruskal tensor is re-parameterised in place."
 )
 ASSUMPTIONS = [
     "symmetrisation reference: sum of np.transpose(A, p) over all p permuting modes within groups, divided by the count",
@@ -207,6 +213,16 @@ def _check_symmetrize(ctx, X, A, case, version, tag):
     # (the first result is in general not integer-valued any more: averaging equal values may round in the last bit)
     same = ref.same_exact(got2, got) if ref.is_intvalued(got) else ref.same_bound(got2, got, np.abs(got), nperm)
     ctx.check(same, f"symmetrize-{tag}-idempotent", ref.diff_info(got2, got))
+    # (round 3) the results are objects of their own, also where nothing had to be averaged: assigning into them
+    # reaches neither the operand nor each other
+    if A.size:
+        first = tuple(0 for _ in A.shape)
+        with ctx.sut(f"tensor.setitem-on-{tag}-result"):
+            R2[first] = 987654.0
+            R[first] = 123456.0
+        ctx.check(ref.same_exact(ref.den(X), A), f"symmetrize-{tag}-result-does-not-alias-operand")
+        ctx.check(ref.den(R)[first] == 123456.0 and ref.den(R2)[first] == 987654.0 and (
+            not isinstance(Rb, ttb.tensor) or ref.same_exact(ref.den(Rb), got)), f"symmetrize-{tag}-results-do-not-alias-each-other")
     return R, got
 
 
@@ -301,7 +317,8 @@ def symmetrize_enumerated(ctx, case):
 def _ksym_case(draw, tier):
     N = draw(st.sampled_from([1, 2, 2, 3, 3, 4]))
     I = draw(st.integers(1, 3 if tier == "quick" else 4))
-    cls = draw(st.sampled_from(["random", "random", "equal-factors", "equal-up-to-sign-pairs", "non-cubical"]))
+    cls = draw(st.sampled_from(["random", "random", "equal-factors", "equal-up-to-sign-pairs", "non-cubical",
+                                "near-equal-factors"]))
     shape = [I] * N
     if cls == "non-cubical" and N >= 2:
         shape[draw(st.integers(0, N - 1))] = I % 4 + 1
@@ -315,6 +332,16 @@ def _ksym_case(draw, tier):
                     for k in (a, b):
                         for row in c["factors"][k]:
                             row[r] = -row[r]
+    if cls == "near-equal-factors":
+        # (round 3) equal factors up to relative noise 1e-16 .. 1e-5 in the modes after the first: not symmetric by the
+        # Kruskal test (exact equality of the factor matrices), whatever a tolerant comparison would say
+        delta = draw(st.sampled_from([2.3e-16, 1e-14, 1e-12, 1e-10, 1e-8, 1e-6, 1e-5]))
+        phase = draw(st.integers(0, 1000))
+        base = [[(x if x != 0 else 1.5) for x in r] for r in c["factors"][0]]
+        c["factors"] = [[[x * (1.0 + (delta * float(np.cos(phase + 1.7 * (i * c["rank"] + j) + 2.9 * k)) if k else 0.0))
+                          for j, x in enumerate(r)] for i, r in enumerate(base)] for k in range(N)]
+        c["vkind"] = "float"
+        c["near_delta"] = delta
     c["class"] = cls if not (cls == "non-cubical" and N < 2) else "random"
     return c
 
@@ -344,6 +371,8 @@ def ktensor_sym(ctx, case):
     ctx.nt = N >= 3 and R >= 2 and not equal
     ctx.label(f"order{N}", f"rank{R}", "class-" + case["class"], case["vkind"], "equal-factors" if equal else "unequal-factors",
               "neg-weight" if (w0 < 0).any() else "nonneg-weights")
+    if case.get("near_delta"):
+        ctx.label(f"near-delta-{case['near_delta']:g}")
     # ---- the Kruskal symmetry test
     with ctx.sut("ktensor.issymmetric"):
         ans = K.issymmetric()
@@ -386,7 +415,8 @@ def ktensor_sym(ctx, case):
     ctx.check(_den_symmetric(DS, 64 * nterm * EPS * BS), "kt-symmetrized-array-is-symmetric")
     # an already symmetric tensor keeps its value: equal factors, or equal up to pairs of sign flips
     # (the latter denote the same array as the equal-factor tensor)
-    if case["class"] in ("equal-factors", "equal-up-to-sign-pairs"):
+    # (the provenance 'near' puts different noise on every factor: the operand is then only nearly symmetric)
+    if case["class"] in ("equal-factors", "equal-up-to-sign-pairs") and (case.get("prov") or {}).get("kind") != "near":
         ctx.check(ref.same_bound(DS, D0, B0, 4 * nterm), "kt-symmetrize-symmetric-input-keeps-value", ref.diff_info(DS, D0))
     # the same call again on the same operand: the same answer, the first result untouched
     snapS = (S.weights.copy(), [f.copy() for f in S.factor_matrices])
@@ -401,6 +431,14 @@ def ktensor_sym(ctx, case):
         S2 = S.symmetrize()
     D2 = ref.den(S2)
     ctx.check(ref.same_bound(D2, DS, BS, 4 * nterm), "kt-symmetrize-idempotent", ref.diff_info(D2, DS))
+    # (round 3) the result is an object of its own, and its factor matrices are separate arrays: re-parameterising it
+    # in place leaves the operand alone and the result symmetric
+    with ctx.sut("ktensor.symmetrize-result-then-normalize-in-place"):
+        S.normalize(weight_factor=0, normtype=1)
+    ctx.check(np.array_equal(K.weights, w0) and all(np.array_equal(a, b) for a, b in zip(K.factor_matrices, F0)),
+              "kt-symmetrize-result-does-not-alias-operand")
+    DS2 = ref.den(S)
+    ctx.check(ref.same_bound(DS2, DS, BS, 4 * nterm), "kt-symmetrize-result-factors-are-separate-arrays", ref.diff_info(DS2, DS))
 
 
 # --------------------------------------------------------------------------
